@@ -413,6 +413,14 @@ func (w *World) verifyFunc(p pkgT, cs *ContractSet, ct *Contract) (res *UnitResu
 	return
 }
 
+// assignedInLitShallow: what the literal's own statements assign (calls to unknown code inside it are not expanded).
+func (x *Exec) assignedInLitShallow(l *ast.FuncLit) map[types.Object]bool {
+	saved := x.noClosureExpand
+	x.noClosureExpand = true
+	defer func() { x.noClosureExpand = saved }()
+	return x.assignedInLit(l)
+}
+
 func (x *Exec) assignedInLit(l *ast.FuncLit) map[types.Object]bool {
 	out := map[types.Object]bool{}
 	inner := x.assignedIn(l.Body)
